@@ -4,12 +4,12 @@ CONSTANTS
   HostileNames <- MC_NoHostile
   MaxOps = 2
   MaxIno = 8
-  Cfg <- MC_Cfg_plain
-  TaintOn = TRUE
+  Cfg <- MC_Cfg_ifh
+  TaintOn = FALSE
   Mode = "c05"
   InitS <- MC_S_plain
-  ScenCfg <- MC_Scen_plain
+  ScenCfg <- MC_Scen_ifh
   ScenTree <- MC_Tree_plain
 VIEW View
-INVARIANTS TreeOK MirrorOK NameGateOK Report
+INVARIANTS TreeOK MirrorOK NameGateOK
 CHECK_DEADLOCK FALSE
